@@ -54,6 +54,39 @@ pub fn arb_text() -> BoxedStrategy<String> {
     .boxed()
 }
 
+/// Escape sequences of *other* languages' string syntax (`\n`, `\x41`, `\u{1F600}`, `\u0041`,
+/// `\U0001F600`, `\N{..}`, octal, line continuation) with edge payloads (surrogates, values
+/// beyond U+10FFFF, empty and non-hex payloads, unclosed braces). evalexpr documents only `\\`
+/// and `\"`: every one of these is "any other escape" and must be an error.
+pub fn arb_foreign_escape() -> BoxedStrategy<String> {
+    const PAYLOADS: [&str; 30] = [
+        "0", "00", "41", "7F", "80", "FF", "100", "0041", "D7FF", "D800", "d800", "DBFF", "DC00", "DFFF", "E000", "FFFD", "FFFF",
+        "10000", "1F600", "10FFFF", "110000", "FFFFFF", "FFFFFFFF", "100000000", "FFFFFFFFFFFFFFFFF", "", "G", "-1", " 41", "4 1",
+    ];
+    let payload = prop_oneof![
+        6 => select(PAYLOADS.to_vec()).prop_map(|s| s.to_string()),
+        2 => any::<u32>().prop_map(|n| format!("{:X}", n)),
+        1 => (0xD800u32..0xE000).prop_map(|n| format!("{:x}", n)),
+        1 => "[0-9a-fA-F]{0,9}".prop_map(|s| s),
+    ];
+    let simple = select(vec![
+        "n", "t", "r", "0", "a", "b", "f", "v", "e", "'", "/", "$", "`", "?", "s", "d", "w", " ", "\n", "\r\n", "{", "}", "(", "1", "012", "377", "400",
+        "u", "x", "U", "N", "c", "cA", "p{L}", "&", "#",
+    ])
+    .prop_map(|s| format!("\\{}", s));
+    prop_oneof![
+        4 => simple,
+        4 => payload.clone().prop_map(|p| format!("\\u{{{}}}", p)),
+        1 => payload.clone().prop_map(|p| format!("\\u{{{}", p)),
+        2 => payload.clone().prop_map(|p| format!("\\u{}", p)),
+        1 => payload.clone().prop_map(|p| format!("\\U{}", p)),
+        2 => payload.clone().prop_map(|p| format!("\\x{}", p)),
+        1 => payload.clone().prop_map(|p| format!("\\x{{{}}}", p)),
+        1 => payload.prop_map(|p| format!("\\N{{{}}}", p)),
+    ]
+    .boxed()
+}
+
 pub fn arb_scalar() -> BoxedStrategy<RV> {
     prop_oneof![
         4 => arb_int().prop_map(RV::Int),
